@@ -133,7 +133,7 @@ class World:
                 else:
                     out.append("?")
             args = ",".join(out)
-        return "/".join([TYPE_CH.get(m.mtype, "?"), sender, self.name_tok(m.fields.get(F_DESTINATION)),
+        return "/".join([TYPE_CH.get(m.mtype, "t%d" % m.mtype), sender, self.name_tok(m.fields.get(F_DESTINATION)),
                          str(code_of(m.fields.get(F_INTERFACE), IFACE_CODE, "t.I")),
                          str(code_of(m.fields.get(F_MEMBER), MEMBER_CODE, "M")),
                          "0" if busmade else str(m.serial), str(m.fields.get(F_REPLY_SERIAL, 0)),
@@ -273,9 +273,9 @@ def build_event_msg(w, f):
     k = f[0]
     if k == "S":
         _, c, ty, dst, i, mem, ser, rser, err, nr, na = f
-        mt = TYPES[ty]
+        mt = TYPES[ty] if ty in TYPES else int(ty[1:])         # t<n>: a type byte the specification does not define
         fields = {}
-        if mt in (METHOD_CALL, SIGNAL):
+        if mt in (METHOD_CALL, SIGNAL) or mt > 4:
             fields[F_PATH] = BUS_PATH if dst == "d" else "/t"
         if int(i):
             fields[F_INTERFACE] = iface_str(int(i))
